@@ -317,3 +317,12 @@ PROPS['C18']['mir']['quick'][0]['scenarios'] += ['const_transmute', 'const_trans
 PROPS['C11']['mir'] = {'quick': [mrun(['const_transmute'])]}
 PROPS['C11']['technique'] = 'bounded model checking with Kani/CBMC on concrete (T,N,M) instantiations (row-major index law, address identity, write-through, drop accounting) + symbolic execution of rustc MIR for const_transmute\'s size guard (all sizes)'
 PROPS['C11']['bounds'] += ' M: const_transmute (the owned flatten/unflatten) reaches the union read iff the two sizes are equal, for all sizes; otherwise panics and drops its argument once.'
+
+IND = ['generate@ind', 'map@ind', 'zip@ind', 'clone@ind', 'ref.map@ind', 'zip.owned_ref@ind', 'zip.ref_owned@ind', 'try_from_iter@ind', 'box_generate@ind']
+for tier in ('quick', 'thorough'):
+    PROPS['C04']['mir'][tier].append({'scenarios': IND, 'nmax': 3, 'timeout': 1800, 'soft_inconclusive': True})
+    PROPS['C07']['mir'][tier].append({'scenarios': ['try_from_iter@ind'], 'nmax': 3, 'timeout': 1800, 'soft_inconclusive': True})
+    PROPS['C16']['mir'][tier].append({'scenarios': ['box_generate@ind'], 'nmax': 3, 'timeout': 1800, 'soft_inconclusive': True})
+PROPS['C04']['bounds'] = ('M: the panic point is a symbolic choice over every call of caller code. (a) bounded: N <= 3 (thorough 6) with unwinding assertion; (b) ALL N < 2^63: the same pipelines (generate, owned map, zip in four forms, Clone, &-receiver map, try_from_iter, boxed generate) with the internal iteration summarised by an automatically instantiated, solver-checked loop invariant (induction over the iteration number); guards\' Drop: ALL N; needs_drop symbolic. K: N <= 4 (thorough 8).')
+PROPS['C04']['assumptions'] += ['inductive scenarios: array lengths below 2^63 (iteration counter does not wrap)']
+PROPS['C07']['bounds'] += ' M: try_from_iter with a panicking / lying source, N <= 3 unrolled and ALL N < 2^63 by loop-invariant induction.'
